@@ -2,6 +2,8 @@ package main
 
 import (
 	"fmt"
+	"math/big"
+	"sort"
 	"strings"
 
 	clip "github.com/bolom009/go-clipper2"
@@ -67,8 +69,69 @@ func cmdC09(r *RNG, n int, e *Emitter, args []string) {
 		if len(openSol) > 0 {
 			e.Nontrivial(fmt.Sprint(i))
 		}
+		// every open subject segment, against the closed inputs and the open solution
+		closedE := allEdges(sc, c)
+		for li, line := range open {
+			for k := 0; k+1 < len(line); k++ {
+				a, b := line[k], line[k+1]
+				if a == b {
+					continue
+				}
+				var sb2 strings.Builder
+				fmt.Fprintf(&sb2, "c09seg %d %d 10", int(ct), int(fr))
+				encPaths(&sb2, sc)
+				encPaths(&sb2, c)
+				encPaths(&sb2, openSol)
+				fmt.Fprintf(&sb2, " %d %d %d %d", a.X, a.Y, b.X, b.Y)
+				// certificate: slab boundaries including the segment itself; for horizontal segments the crossing parameters
+				ys := slabYs(append(append([]Edge{}, closedE...), Edge{a, b}))
+				encRats(&sb2, ys)
+				encRats(&sb2, horizontalSplits(a, b, closedE))
+				m2 := map[string]any{"open": meta["open"], "subject": meta["subject"], "clip": meta["clip"], "ct": int(ct), "fr": int(fr), "clip_nil": false,
+					"open_solution": meta["open_solution"], "segment": [][2]int64{{a.X, a.Y}, {b.X, b.Y}}}
+				e.Case(fmt.Sprintf("c09-%d.s%d.%d", i, li, k), sb2.String(), m2)
+			}
+		}
 		// the closed solution must be the boolean region of the CLOSED inputs alone (C01's certificate)
 		line, _ := genLine(fmt.Sprintf("bool %d %d", int(ct), int(fr)), "4", []clip.Paths64{sc, c, closedSol}, append(clonePaths(sc), c...), nil)
 		e.Case(fmt.Sprintf("c09-%dc", i), line, meta)
 	}
+}
+
+// for a horizontal segment: 0, the parameters at which non-horizontal closed edges cross its line, 1
+// (re-oriented left to right, as the checker does)
+func horizontalSplits(a, b clip.Point64, closed []Edge) []*big.Rat {
+	if a.Y != b.Y || a.X == b.X {
+		return []*big.Rat{big.NewRat(0, 1), big.NewRat(1, 1)}
+	}
+	if a.X > b.X {
+		a, b = b, a
+	}
+	ts := []*big.Rat{big.NewRat(0, 1), big.NewRat(1, 1)}
+	y := a.Y
+	for _, e := range closed {
+		lo, hi := e.A.Y, e.B.Y
+		if lo > hi {
+			lo, hi = hi, lo
+		}
+		if lo == hi || y < lo || y >= hi {
+			continue
+		}
+		// x = A.x + (y - A.y) (B.x - A.x) / (B.y - A.y)
+		x := new(big.Rat).SetFrac(big.NewInt((y-e.A.Y)*(e.B.X-e.A.X)), big.NewInt(e.B.Y-e.A.Y))
+		x.Add(x, new(big.Rat).SetInt64(e.A.X))
+		t := new(big.Rat).Sub(x, new(big.Rat).SetInt64(a.X))
+		t.Quo(t, new(big.Rat).SetInt64(b.X-a.X))
+		if t.Sign() > 0 && t.Cmp(big.NewRat(1, 1)) < 0 {
+			ts = append(ts, t)
+		}
+	}
+	sort.Slice(ts, func(i, j int) bool { return ts[i].Cmp(ts[j]) < 0 })
+	out := ts[:1]
+	for _, t := range ts[1:] {
+		if t.Cmp(out[len(out)-1]) != 0 {
+			out = append(out, t)
+		}
+	}
+	return out
 }
